@@ -29,6 +29,7 @@ class Sx:
         self.sym = mode == "sym"
         self.ctx = ctx
         self.model = model or {}
+        self.rng = None        # conc mode, ground twin: inputs the model does not fix are drawn from their declared ranges
         self.failed = []       # conc mode: failed obligations
         self.checked = 0
         self.reached = {}
@@ -51,6 +52,8 @@ class Sx:
             default = lo if lo is not None else (hi if hi is not None else (1 if positive else 0))
             if lo is not None and hi is not None:
                 default = (Fraction(lo) + Fraction(hi)) / 2
+                if self.rng is not None and name not in self.model:
+                    default = self.model[name] = self.rng.uniform(float(lo), float(hi))
             return float(self._mv(name, default))
         ctx = self.ctx
         strictly_pos = positive or (lo is not None and lo > 0)
@@ -69,6 +72,8 @@ class Sx:
 
     def integer(self, name, lo, hi):
         if not self.sym:
+            if self.rng is not None and name not in self.model:
+                self.model[name] = self.rng.randint(lo, hi)
             return int(self._mv(name, lo))
         ctx = self.ctx
         g = ctx.new_gen(name, positive=lo > 0, integer=True)
@@ -82,6 +87,8 @@ class Sx:
 
     def boolean(self, name):
         if not self.sym:
+            if self.rng is not None and name not in self.model:
+                self.model[name] = self.rng.random() < 0.5
             return bool(self._mv(name, False))
         self.ctx.inputs[name] = "bool"
         return B(z3.Bool(name))
